@@ -137,6 +137,10 @@ func verifC09Op(s *Session, op int, v int) {
 		}
 	case 14:
 		s.Close()
+	case 15: // the two DHCP offer accessors on their own (no incidental synchronisation between them)
+		_ = s.DHCPv4IPOffer(mac)
+	case 16:
+		s.SetDHCPv4IPOffer(mac, verifC09IP4, NameEntry{})
 	}
 }
 
